@@ -54,6 +54,63 @@ def parse(ans):
     return api, outs, int(meta.get("N", 0)), int(meta.get("fired", 0))
 
 
+def refused_destination(run, seen):
+    """the failure is a destination that cannot be opened (invalid descriptor / missing directory): rotate_output throws; whatever
+    is attempted meanwhile, a later rotation to a healthy destination succeeds and the next block write produces a complete valid
+    file with the records that are still buffered"""
+    lines, metas = [], []
+    for tgt in ("fd", "nm"):
+        for comp in ("n", "g", "x"):
+            for ex in (0, 1):
+                for mid in ("", "W C", "{q3} W C {q4}", "R:bad:0 C W C"):
+                    pad = "x" + "41" * 300
+                    q = lambda i: "Q:cport=%d,qn=%s" % (i, pad)
+                    mids = mid.format(q3=q(3), q4=q(4))
+                    script = "BP:tps=1000,max=1000 X:%s:%s %s %s C W C %s R:bad:%d C %s C R:%s:0 C R:%s:0 C W C D" % (tgt, comp, q(1), q(2), q(5), ex, mids, tgt, tgt)
+                    lines.append("os full " + " ".join(script.split())); metas.append((tgt, comp, ex, mid))
+    answers = run_os(lines)
+    lean_lines, idx = [], []
+    parsed = []
+    for (tgt, comp, ex, mid), a in zip(metas, answers):
+        p = parse(a); parsed.append(p)
+        if p and p[1] and p[1][-1] not in ("-", "MISSING", "NONE") and not p[1][-1].startswith("PART:"):
+            data, err = E.decompress(p[1][-1], comp)
+            if data:
+                lean_lines.append("cdns " + data.hex()); idx.append(len(parsed) - 1)
+    lean_of = dict(zip(idx, G.run_driver(lean_lines))) if run.driver_ok and lean_lines else {}
+    for k, ((tgt, comp, ex, mid), p, line) in enumerate(zip(metas, parsed, lines)):
+        tag = "%s/%s" % (tgt, {"n": "plain", "g": "gzip", "x": "xz"}[comp])
+        run.case(("refused-destination", tgt, comp, ex, mid), True); run.count("refused destination")
+        if p is None:
+            bad = ("crash", (answers[k] or "")[:300])
+        else:
+            api = p[0]
+            bad = None
+            # ... R:bad:<ex> C <mid> C R:<tgt>:0 C R:<tgt>:0 C W C   -> the last six results: healthy rotation 1, counters, healthy
+            # rotation 2, counters, W, counters.  What was written between the refused rotation and the first healthy one went to an
+            # output that does not exist: its loss may be reported by the first healthy rotation (which then throws), never later.
+            r_bad = api[6]
+            if not r_bad.startswith("E:"):
+                bad = ("refused-rotation-returned", "rotate_output to a destination that cannot be opened returned %s" % r_bad)
+            healthy1, healthy, cnt_before, w_last = api[-6], api[-4], api[-3], api[-2]
+            if bad is None and healthy1.startswith("E:") and "W" not in mid.split():
+                bad = ("recovery-rotate-throws", "nothing was written after the refused rotation, yet rotate_output to a healthy destination threw")
+            if bad is None and healthy.startswith("E:"):
+                bad = ("second-recovery-rotate-throws", "the second rotate_output to a healthy destination threw")
+            nqr = int(cnt_before.split("=")[1].split(".")[1]) if cnt_before.startswith("c=") else -1
+            if bad is None and w_last.startswith("E:"):
+                bad = ("recovery-write-throws", "write_block() on the healthy output threw")
+            if bad is None and nqr > 0:
+                lg = lean_of.get(k)
+                if lg is None or lg.startswith("S invalid") or lg.count("Q{") != nqr:
+                    bad = ("recovery-file", "the healthy output is not a complete valid file with the %d records that were buffered: %s" % (nqr, (lg or p[1][-1])[:200]))
+        if bad:
+            sig = "refused:%s:%s" % (bad[0], tag)
+            if sig not in seen:
+                seen.add(sig)
+                run.spec_fail.append((sig, line, {"why": bad[1], "api results": " ".join(p[0]) if p else None}))
+
+
 def check(run):
     run.lean()
     quick = run.tier == "quick"
@@ -152,6 +209,7 @@ def check(run):
                 run.spec_fail.append((sig, line, {"why": bad[1], "api results": " ".join(api), "fault-free api": " ".join(api0),
                                                   "k": k, "kind": kind, "persistent": persist}))
     run.extra["faults_fired"] = fired_total
+    refused_destination(run, seen)
     run.exhaustive = True
     run.extra["exhaustive_over"] = "fault points k of every scenario"
 
